@@ -506,7 +506,11 @@ def m_list_append(eng, s, l, args, kw):
     n = h.llen(l.ref)
     eng.check_write(s, l.ref, "list")
     s.assume(n >= 0)
-    s.heap = h.set_list(l.ref, n + 1, z3.Store(h.lelems(l.ref), n, materialise(eng, s, args[0]).t))
+    x = materialise(eng, s, args[0]).t
+    new_elems = z3.Store(h.lelems(l.ref), n, x)
+    s.heap = h.set_list(l.ref, n + 1, new_elems)
+    # ground instance (a tautology of the array theory) that gives quantifier triggers the new last element
+    s.assume(z3.Select(new_elems, n) == x)
     return [(sv_none(), s)]
 
 
